@@ -329,11 +329,15 @@ def join_line(pkt, ops):
 
 
 def shrink(c):
+    """shorter histories first (short prefixes, then dropping single calls), then shorter data"""
     pkt, ops = split_line(c.line)
     n = len(ops)
     cands = []
     if n > 1:
-        cands.append(ops[:n // 2]); cands.append(ops[:n - 1]); cands.append(ops[1:]); cands.append(ops[n // 2:])
+        k = 1
+        while k < n:
+            cands.append(ops[:k]); k *= 2
+        cands.append(ops[:n - 1]); cands.append(ops[1:]); cands.append(ops[n // 2:])
         for i in range(n):
             cands.append(ops[:i] + ops[i + 1:])
     for i, o in enumerate(ops):
